@@ -44,7 +44,7 @@ Variables leqb lltb : leaf -> leaf -> bool.
 Notation value := (value leaf).
 
 (* two values of the same C++ type whose operators are value comparisons: same constructor and arity all the
-   way down (two variants may hold different alternatives), no pointer inside *)
+   way down (two variants may hold different alternatives, or be valueless), no pointer inside *)
 Fixpoint cmp_shape (x y : value) : bool :=
   match x, y with
   | VLeaf _, VLeaf _ => true
@@ -52,6 +52,7 @@ Fixpoint cmp_shape (x y : value) : bool :=
   | VPair a b, VPair c d => cmp_shape a c && cmp_shape b d
   | VVariant k v, VVariant j w => if (k =? j)%nat then cmp_shape v w else true
   | VObj l, VObj m => all2 cmp_shape l m
+  | VValueless, VValueless | VValueless, VVariant _ _ | VVariant _ _, VValueless => true
   | _, _ => false
   end.
 
